@@ -18,7 +18,7 @@
                   same language (lang_bisim; merge preserves the language -- C15), same multiset of items, same
                   address; or the same error. *)
 From Coq Require Import ZArith List Bool NArith.
-From Falcon Require Import Base.Res IL.Const IL.Expr IL.Func IL.Loc Exec.Sem Lift.Lang Lift.Recover.
+From Falcon Require Import Base.Res IL.Const IL.Expr IL.Func IL.Loc Exec.Sem Lift.Lang Lift.LangSem Lift.Recover.
 Import ListNotations.
 Local Open Scope Z_scope.
 
@@ -253,24 +253,6 @@ Definition sem_agree (k : nat) (f1 f2 : func) (en : senv) : bool :=
   | _, _ => false
   end.
 
-(* ------------------------------------------------------------------ Exec/Sem.v as an interpretation of the items *)
-(* the instance of Lang.pexec's parameters given by the reference semantics: an instruction item runs
-   exec_op (an indirect branch or a fault ends the run), a guard holds when it denotes the 1-bit constant 1 *)
-Definition sem_do (s : sstate) (x : item) : option sstate :=
-  match x with
-  | Ins _ o => match exec_op s o with
-               | Ok (_, EvBranch _) => None
-               | Ok (s', _) => Some s'
-               | _ => None
-               end
-  | Grd _ => None
-  end.
-Definition sem_holds (s : sstate) (c : option expr) : bool :=
-  match c with
-  | None => true
-  | Some e => match den (st_env s) e with Ok v => (cbits v =? 1) && (cval v =? 1) | _ => false end
-  end.
-
 (* ------------------------------------------------------------------ the case *)
 Inductive case :=
 | KRec (fa : Z) (items : list pinstr) (manual : list medge) (inits : list senv)
@@ -291,18 +273,40 @@ Definition oracle_parts (k : case) : list bool :=
                 (f_addr f =? fa) && entry_ok fa items (f_cfg f);
                 names_ok (f_cfg f);
                 forallb (sem_agree 48 f gp) inits;
-                drv ]
+                drv;
+                (* side conditions of Props/C06.v lang_eq_exec_sem, so that the theorem applies to this very pair of
+                   graphs (with manual edges a block may legitimately carry two equal guards) *)
+                match ms with
+                | [] => det (f_cfg f) && det (f_cfg gp) && sem_wf (f_cfg f) && sem_wf (f_cfg gp)
+                | _ => true
+                end ]
           | _ => [false]         (* the recovery of a well-formed program must succeed *)
           end
       end
   end.
 
+(* exact comparison of the static views (next-index counters are private in Rust and not dumped) *)
+Definition instr_eqb (a b : instruction) : bool :=
+  (i_index a =? i_index b) && op_eqb (i_op a) (i_op b) && optZ_eqb (i_addr a) (i_addr b).
+Definition block_eqb (a b : block) : bool := (b_index a =? b_index b) && list_eqb instr_eqb (b_instrs a) (b_instrs b).
+Definition edge_eqb (a b : edge) : bool := (e_head a =? e_head b) && (e_tail a =? e_tail b) && lab_eqb (e_cond a) (e_cond b).
+Definition cfg_eqb (a b : cfg) : bool :=
+  list_eqb block_eqb (g_blocks a) (g_blocks b) && list_eqb edge_eqb (g_edges a) (g_edges b) &&
+  optZ_eqb (g_entry a) (g_entry b) && optZ_eqb (g_exit a) (g_exit b).
+
+(* tie: the model INCLUDING the final merge returns exactly the observed function (same blocks with the same
+   instruction index fields, same edges, entry, exit), or the same error; the merge-free model is compared too
+   (same language, same items) so that a tie failure can be attributed *)
 Definition tie (k : case) : bool :=
   match k with
   | KRec fa _ ms _ _ tb obs =>
-      match recover tb fa (map (fun m => mkmm (me_head m) (me_tail m) (me_cond m)) ms), obs with
-      | Ok m, Ok f => lang_bisim (f_cfg m) (f_cfg f) && multiset_eqb (all_items (f_cfg m)) (all_items (f_cfg f)) &&
-                      (f_addr m =? f_addr f)
+      let mm := map (fun m => mkmm (me_head m) (me_tail m) (me_cond m)) ms in
+      match recover_full tb fa mm, obs with
+      | Ok m, Ok f => cfg_eqb (f_cfg m) (f_cfg f) && (f_addr m =? f_addr f) &&
+                      match recover tb fa mm with
+                      | Ok m0 => lang_bisim (f_cfg m0) (f_cfg f) && multiset_eqb (all_items (f_cfg m0)) (all_items (f_cfg f))
+                      | _ => false
+                      end
       | Err e, Err e' => err_eqb e e'
       | Panic, Panic => true
       | _, _ => false
